@@ -5,7 +5,7 @@ proof   : Props/C20.v over Lib/Cksum.v (+CksumProofs.v) and Lib/TinyRV0.v (+Tiny
    "The checksum unit's FL, CL and RTL models return the       C20_cksum_all_8tuples, C20_cksum_rtl_eq_fl, C20_cksum_fl_eq_spec,
     same checksum for every input"                             C20_cksum_is_32bit, C20_cksum_words_order, C20_cksum_unpack_pack  (FULL proof,
                                                                all inputs, mod arithmetic) + T-diff part (a) below ties cksum_fl / cksum_rtl /
-                                                               pack_words to ChecksumFL.checksum, ChecksumCL, ChecksumRTL, StepUnit, utils.*
+                                                               pack_words to ChecksumFL.checksum, ChecksumCL, ChecksumRTL, utils.*
    "... as an independent interpreter of the TinyRV0 ISA       Lib/TinyRV0.v written from tinyrv0-isa.md; C20_decode_encode (+ encodings compared
     document"                                                  with the repo's assembler on every program), C20_x0_always_zero, C20_registers_stay_32bit,
                                                                C20_little_endian / load_after_store / store_frame, C20_final_state_unique,
@@ -25,6 +25,7 @@ from common import *
 
 IMPORTS = 'Base.Prelude Lib.Cksum Lib.TinyRV0'
 M32 = (1 << 32) - 1
+MEMSZ = 1 << 20
 TEXT, DATA, NDATA = 0x200, 0x2000, 48          # data window: 48 words at 0x2000 (first 32 initialised)
 PTR_SLOTS = range(40, 48)                        # window words that always hold valid pointers
 BASE, PTRS, CNTS = 28, (26, 27), (29, 30)
@@ -43,7 +44,7 @@ def run_cksum(ctx):
   from pymtl3.stdlib.connects import connect_pairs
   from examples.ex02_cksum.ChecksumFL import checksum
   from examples.ex02_cksum.ChecksumCL import ChecksumCL
-  from examples.ex02_cksum.ChecksumRTL import ChecksumRTL, StepUnit
+  from examples.ex02_cksum.ChecksumRTL import ChecksumRTL
   from examples.ex02_cksum.utils import words_to_b128, b128_to_words
   rng = ctx.rng
   quick = ctx.tier == 'quick'
@@ -105,21 +106,70 @@ def run_cksum(ctx):
                    'rtl': [r[i] if i < len(r) else None for r in rtl], 'message': int(msgs[i]), 'unpacked': unp[i], 'coq': exp[0], 'delay_sets': delay_sets})
   ctx.sample({'kind': 'checksum', 'words': tuples[2], 'fl': hex(fl[2]), 'cl': hex(cl[0][2]), 'rtl': hex(rtl[0][2]), 'coq_case': cases[2]})
 
-  # one StepUnit with arbitrary 32-bit sums on its inputs (more than the chain ever feeds it)
-  su = StepUnit(); su.elaborate(); su.apply(DefaultPassGroup()); su.sim_reset()
-  sc, sm = [], []
-  for _ in range(60 if quick else 600):
-    w = rng.choice([0, 0xffff, rng.getrandbits(16)])
-    s1, s2 = (rng.choice([0, M32, 0xffff, 0x10000, rng.getrandbits(32), rng.getrandbits(16)]) for _ in range(2))
-    su.word_in @= w; su.sum1_in @= s1; su.sum2_in @= s2
-    su.sim_eval_combinational()
-    sc.append(f'({zlit(w)}, {zlit(s1)}, {zlit(s2)}, {zlit(int(su.sum1_out))}, {zlit(int(su.sum2_out))})'); sm.append((w, s1, s2))
-    ctx.count(('stepunit', w, s1, s2), True, cls='cksum:stepunit')
-  bad = ctx.coq_bad_indices('su', IMPORTS, '', 'Z * Z * Z * Z * Z', sc,
-                            "let '(w, s1, s2, o1, o2) := c in let r := step_unit (s1, s2) w in (fst r =? o1) && (snd r =? o2)")
-  for i in bad[:3]:
-    ctx.violation(f'C20:stepunit:{sm[i]}', f'StepUnit(word, sum1_in, sum2_in) = {sm[i]} gives {sc[i]}, model differs', {'case': sm[i], 'coq_case': sc[i]})
   ctx.extra['cksum_tuples'] = len(tuples); ctx.extra['cksum_delay_sets'] = delay_sets
+
+# =============================================================================================== (a2) encodings
+ENC_DEFS = '''
+Definition fobs := (Z * Z * Z * Z * Z * Z * Z)%type.
+Definition enc_ok (c : instr * Z * fobs) : bool :=
+  let '(i, w, (nm, rd, rs1, rs2, ii, si, bi)) := c in
+  wf_instrb i && (encode i =? w) &&
+  match decode w with
+  | Some (ADD a b d) => (nm =? 1) && (a =? rd) && (b =? rs1) && (d =? rs2)
+  | Some (AND a b d) => (nm =? 2) && (a =? rd) && (b =? rs1) && (d =? rs2)
+  | Some (SLL a b d) => (nm =? 3) && (a =? rd) && (b =? rs1) && (d =? rs2)
+  | Some (SRL a b d) => (nm =? 4) && (a =? rd) && (b =? rs1) && (d =? rs2)
+  | Some (ADDI a b im) => (nm =? 5) && (a =? rd) && (b =? rs1) && (im mod 4096 =? ii)
+  | Some (LW a b im) => (nm =? 6) && (a =? rd) && (b =? rs1) && (im mod 4096 =? ii)
+  | Some (SW a b im) => (nm =? 7) && (a =? rs2) && (b =? rs1) && (im mod 4096 =? si)
+  | Some (BNE a b im) => (nm =? 8) && (a =? rs1) && (b =? rs2) && (im mod 8192 =? bi)
+  | Some (CSRR a csr) => (nm =? 9) && (a =? rd) && (csr =? ii)
+  | Some (CSRW csr b) => (nm =? 10) && (b =? rs1) && (csr =? ii)
+  | None => false
+  end.
+'''
+NAMECODE = {'add': 1, 'and': 2, 'sll': 3, 'srl': 4, 'addi': 5, 'nop': 5, 'lw': 6, 'sw': 7, 'bne': 8, 'csrr': 9, 'csrw': 10}
+
+def run_encoding(ctx):
+  """every instruction form with boundary/random field values: repo assembler word == Coq encode, and the fields the FL/CL
+     decoder (TinyRV0Inst) extracts == Coq decode"""
+  from examples.ex03_proc.tinyrv0_encoding import assemble_inst, TinyRV0Inst
+  rng = ctx.rng
+  quick = ctx.tier == 'quick'
+  R = lambda: rng.choice([0, 1, 15, 16, 31, rng.randrange(32)])
+  I12 = lambda: rng.choice([-2048, -2047, -1, 0, 1, 2046, 2047, 31, 32, -32, -33, rng.randint(-2048, 2047), rng.randint(-2048, 2047)])
+  B13 = lambda: rng.choice([-4096, -4094, -2050, -2048, -2046, -2, 0, 2, 2046, 2048, 2050, 4094, 2 * rng.randint(-2048, 2047), 2 * rng.randint(-2048, 2047)])
+  CSR = lambda: rng.choice([0x7C0, 0xFC0, 0x7E0, 0x7FF, 0, 0xFFF, rng.randrange(4096)])
+  cases, meta = [], []
+  for _ in range(40 if quick else 400):
+    for op in ('add', 'and', 'sll', 'srl', 'addi', 'lw', 'sw', 'bne', 'csrr', 'csrw', 'nop'):
+      if op in ('add', 'and', 'sll', 'srl'):
+        a, b, c = R(), R(), R(); txt = f'{op} x{a}, x{b}, x{c}'; term = f'{op.upper()} {a} {b} {c}'
+      elif op == 'addi': a, b, c = R(), R(), I12(); txt = f'addi x{a}, x{b}, {c}'; term = f'ADDI {a} {b} {zlit(c)}'
+      elif op == 'lw': a, b, c = R(), R(), I12(); txt = f'lw x{a}, {c}(x{b})'; term = f'LW {a} {b} {zlit(c)}'
+      elif op == 'sw': a, b, c = R(), R(), I12(); txt = f'sw x{a}, {c}(x{b})'; term = f'SW {a} {b} {zlit(c)}'
+      elif op == 'bne': a, b, c = R(), R(), B13(); txt = f'bne x{a}, x{b}, {c}'; term = f'BNE {a} {b} {zlit(c)}'
+      elif op == 'csrr': a, c = R(), CSR(); txt = f'csrr x{a}, {c:#x}'; term = f'CSRR {a} {c}'
+      elif op == 'csrw': a, c = R(), CSR(); txt = f'csrw {c:#x}, x{a}'; term = f'CSRW {c} {a}'
+      else: txt, term = 'nop', 'nop'
+      try:
+        w = int(assemble_inst({}, 0x200, txt))
+        t = TinyRV0Inst(w)
+        nm = t.name
+        f = (NAMECODE.get(nm, 0), int(t.rd), int(t.rs1), int(t.rs2), int(t.i_imm), int(t.s_imm), int(t.b_imm))
+        assert int(t.csrnum) == int(t.i_imm)
+      except Exception as e:
+        ctx.violation(f'C20:encoding:{txt}', f'assembling / decoding "{txt}" raised {e!r}', {'asm': txt}); continue
+      cases.append(f'({term}, {zlit(w)}, ({", ".join(zlit(x) for x in f)}))'); meta.append((txt, w, nm, f))
+      ctx.count(('enc', txt), True, cls='encoding:' + op)
+  bad = ctx.coq_bad_indices('enc', IMPORTS, ENC_DEFS, 'instr * Z * fobs', cases, 'enc_ok c')
+  for i in bad[:5]:
+    txt, w, nm, f = meta[i]
+    exp = ctx.coq_eval('enc1', IMPORTS, ENC_DEFS, [f"let '(i, w, f) := {cases[i]} in (encode i, decode w)"])
+    ctx.violation(f'C20:encoding:{txt}', f'"{txt}": assembler gives {w:#010x}, TinyRV0Inst decodes name={nm} (rd,rs1,rs2,i_imm,s_imm,b_imm)={f[1:]}; '
+                  f'Coq (encode, decode of that word) = {exp[0][:200]}', {'asm': txt, 'assembled': w, 'repo_decode': [nm] + list(f[1:]), 'coq': exp[0]})
+  ctx.extra['encoding_cases'] = len(cases)
+  ctx.sample({'kind': 'encoding', 'asm': meta[7][0], 'word': hex(meta[7][1]), 'coq_case': cases[7]})
 
 # =============================================================================================== (b) processors
 # ---- program trees:  ('i', instr) | ('if', rs1, rs2, [nodes]) | ('loop', cnt, n, [nodes])
@@ -368,7 +418,7 @@ def simulate(pname, prog, cfg, drain=40):
       th.sink.msgs = [None] * (n + 64)
       th.sink.cmp_fn = lambda a, b: (rec.append(int(a)), True)[1]
       th.apply(DefaultPassGroup())
-      before = bytes(th.mem.read_mem(0, 1 << 20))
+      before = bytes(th.mem.read_mem(0, MEMSZ - 1))
       th.sim_reset()
       limit = 600 + int(prog['ref']['dyn'] * (10 + 8 * cfg[3]) / (1 - cfg[2])) + (n + len(prog['inputs'])) * (cfg[0] + cfg[1] + 2) * 2
       cyc = 0
@@ -377,11 +427,11 @@ def simulate(pname, prog, cfg, drain=40):
       obs['timeout'] = cyc >= limit
       for _ in range(drain + 3 * cfg[3] + 2 * cfg[1]): th.sim_tick()
       obs['cycles'] = cyc
-      after = bytes(th.mem.read_mem(0, 1 << 20))
+      after = bytes(th.mem.read_mem(0, MEMSZ - 1))
       obs['left'] = len(th.src.msgs)
       obs['win'] = [w[0] for w in struct.iter_unpack('<I', after[DATA:DATA + 4 * NDATA])]
       if before != after:
-        for a in range(0, 1 << 20, 4096):
+        for a in range(0, MEMSZ, 4096):
           if before[a:a + 4096] != after[a:a + 4096]:
             for b in range(a, a + 4096, 4):
               if before[b:b + 4] != after[b:b + 4] and not (DATA <= b < DATA + 4 * NDATA):
@@ -439,7 +489,9 @@ def coq_judge(ctx, name, items):
 def coq_reference(ctx, prog, words):
   """what the Coq ISA interpreter computes for this program (for the report)"""
   t = case_term(prog, words, [])
-  v = ctx.coq_eval('ref', IMPORTS, DEFS, [f'let c := {t} in let s := final c in (model_ok c, pc s, outputs s, load_words (mem s) 8192 48, Z.of_nat (length (mngr2proc s)))'])
+  v = ctx.coq_eval('ref', IMPORTS, DEFS, [f"let c := {t} in let s := final c in let '(ins, words, _, _, _, _, _) := c in "
+                                          "(model_ok c, pc s, outputs s, load_words (mem s) 8192 48, Z.of_nat (length (mngr2proc s)), "
+                                          "bad_indices (fun p => encode (fst p) =? snd p) (combine ins words))"])
   return v[0]
 
 # ---- shrinking (python reference steers, Coq confirms)
@@ -499,6 +551,21 @@ def shrink(tree, data, inputs, pname, cfg, budget=150):
     spent += 1
     o = simulate(pname, p, cfg)
     if not obs_matches_ref(o, p): epi, cur = e2, (p, o)
+  # prologue initialisations of registers nothing reads any more (never the base pointer)
+  def reads(i):
+    return {'add': (2, 3), 'and': (2, 3), 'sll': (2, 3), 'srl': (2, 3), 'addi': (2,), 'lw': (2,), 'sw': (1, 2), 'bne': (1, 2), 'csrw': (1,)}.get(i[0], ())
+  for k in range(len(pro) - 1, 0, -1):
+    if spent >= budget + 80: break
+    rd = pro[k][1][1]
+    rest = [i for i in flatten(pro[:k] + pro[k + 1:] + body + epi) if i[0] != 'L']
+    if any(i[j] == rd for i in rest for j in reads(i)): continue
+    p2 = pro[:k] + pro[k + 1:]
+    try:
+      p = build((p2, body, epi), data, seed_inputs, rng=__import__('random').Random(1))
+    except GenSimError: continue
+    spent += 1
+    o = simulate(pname, p, cfg)
+    if not obs_matches_ref(o, p): pro, cur = p2, (p, o)
   return (pro, body, epi), cur[0], cur[1]
 
 def describe(o, prog):
@@ -540,18 +607,18 @@ def report(ctx, tree, prog, words, pname, cfg, o):
                  'observed_proc2mngr': o2['out'], 'observed_data_window': o2['win'], 'observed_other_changes': o2['extra'],
                  'observed_unconsumed_inputs': o2['left'], 'exception': o2['exception'], 'timeout': o2['timeout'],
                  'isa_proc2mngr (generator-side interpreter)': p2['ref']['out'], 'isa_data_window (generator-side interpreter)': p2['ref']['win'],
-                 'coq (model_ok, pc, outputs, data window, unconsumed inputs)': coqref,
+                 'coq (model_ok, pc, outputs, data window, unconsumed inputs, indices of instructions whose Coq encoding differs from the assembled word)': coqref,
                  'original_program_instructions': len(prog['ins'])})
 
 def run_procs(ctx):
   rng = ctx.rng
   quick = ctx.tier == 'quick'
-  nprog = 30 if quick else 700
-  ncfg = 2 if quick else 3
+  nprog = 60 if quick else 1200
+  ncfg = 3
   progs = []
   for k in range(nprog):
     prng = __import__('random').Random(rng.getrandbits(64))
-    size = prng.choice([8, 15, 25, 40, 60] if quick else [6, 12, 25, 40, 60, 90])
+    size = prng.choice([6, 12, 25, 40, 60, 90])
     for attempt in range(20):
       tree = gen_tree(prng, size)
       data = gen_data(prng)
@@ -603,13 +670,15 @@ def run_procs(ctx):
         try: coqref = coq_reference(ctx, prog, words)
         except Exception as e: coqref = repr(e)[:300]
         ctx.violation('C20:model:' + hashlib.sha1(cases[k].encode()).hexdigest()[:12],
-                      'the Coq ISA model disagrees with ProcFL, ProcCL, ProcRTL and the generator-side interpreter (encoding or semantics): ' + coqref[:300],
+                      'the Coq ISA model disagrees with ProcFL, ProcCL, ProcRTL and the generator-side interpreter (encoding or semantics; last component = indices of instructions whose Coq encoding differs from the assembled word): ' + coqref[-200:],
                       {'asm': prog['asm'], 'data': prog['data'], 'mngr2proc_inputs': prog['inputs'], 'assembled_words': words,
                        'observed_proc2mngr': runs[0][2]['out'], 'coq': coqref, 'coq_case': cases[k][:6000]}, found_input=False)
         continue
-      if k not in badset:
+      hard = [c for c in culprits if c[2]['exception'] or c[2]['timeout'] or c[2]['words'] != words]
+      if k not in badset and not hard:
         ctx.note(f'program {k}: generator-side interpreter disagrees with {culprits[0][0]} but Coq accepts the observation (interpreter bug?)')
         continue
+      if k not in badset: culprits = hard     # exceptions / cycle-limit hits / different assembled words never reach Coq: reported directly
       seen = set()
       for pn, cfg, o in culprits:
         if pn in seen or reported >= 6: continue
@@ -625,14 +694,32 @@ def run_procs(ctx):
 def run(ctx):
   setup_impl_path()
   run_cksum(ctx)
+  run_encoding(ctx)
   run_procs(ctx)
 
 def replay(ctx, r):
   """./check C20 --replay file : re-run the recorded program/configuration on the current tree and let Coq judge it"""
   setup_impl_path()
   rp = r['replay']
-  if 'words' in rp:
-    print('checksum replay: re-run ./check C20 (the checksum cases are regenerated from the seed)'); return 0
+  if 'words' in rp and 'ins' not in rp:                       # checksum case
+    from pymtl3 import b16
+    from examples.ex02_cksum.ChecksumFL import checksum
+    from examples.ex02_cksum.utils import words_to_b128
+    ws = rp['words']; fl = int(checksum([b16(w) for w in ws])); msg = int(words_to_b128([b16(w) for w in ws]))
+    v = ctx.coq_eval('ck', IMPORTS, '', [f'(cksum_spec {coq_list(map(zlit, ws))}, snd (pack_words {coq_list(map(zlit, ws))}))'])
+    print(f'REPLAY checksum {ws}: ChecksumFL={fl} words_to_b128={msg} Coq (spec, message)={v[0]}  '
+          '(CL/RTL simulations are re-run by ./check C20, cases are regenerated from the seed)')
+    shutil.rmtree(ctx.scratch, ignore_errors=True)
+    return 0 if v[0].replace(' ', '') == f'({fl},{msg})' else 1
+  if 'ins' not in rp and 'asm' in rp and isinstance(rp['asm'], str):   # encoding case
+    from examples.ex03_proc.tinyrv0_encoding import assemble_inst
+    w = int(assemble_inst({}, 0x200, rp['asm']))
+    v = ctx.coq_eval('enc1', IMPORTS, '', [f'decode {zlit(w)}'])
+    print(f'REPLAY encoding "{rp["asm"]}": assembler gives {w:#010x} (recorded {rp.get("assembled")}), Coq decodes it as {v[0]}')
+    shutil.rmtree(ctx.scratch, ignore_errors=True)
+    return 0
+  if 'ins' not in rp:
+    print('nothing to re-run for this replay file; run ./check C20'); return 0
   ins = [tuple(i) for i in rp['ins']]
   cfgd = rp['config']; cfg = tuple(cfgd[k] for k in CONFIG_KEYS)
   ref = gensim(ins, rp['data'], rp['mngr2proc_inputs'])
@@ -667,7 +754,7 @@ def main(ctx):
     ctx.note('correspondence crashed: ' + traceback.format_exc()[-1500:])
     ctx.violation('C20:harness-crash', f'correspondence could not run: {e!r}', {'traceback': traceback.format_exc()}, found_input=False)
   return ctx.finish(rule='(a) checksum: 21 boundary + random 8-tuples of 16-bit words through ChecksumFL.checksum, simulated ChecksumCL and ChecksumRTL (several src/sink delays), '
-                         'utils.words_to_b128/b128_to_words and StepUnit with arbitrary 32-bit sums, each compared inside Coq with cksum_fl / cksum_rtl / pack_words; '
+                         'utils.words_to_b128/b128_to_words, each compared inside Coq with cksum_fl / cksum_rtl / pack_words; '
                          '(b) processors: random structured terminating TinyRV0 programs (prologue initialising a random register pool, body of ALU/addi/lw/sw/csrr/csrw/nop with '
                          'sources biased to the last 3 destinations, forward bne with 1-4 shadow instructions rich in sw/csrw/csrr/lw, counted loops nested <= 2, pointer chasing through '
                          'pointer slots, csr bursts, epilogue dumping the pool) x timing configurations (one fast, others latency 1-5 / stall 0,0.3,0.7 / src,sink delay 0-4) x '
